@@ -542,7 +542,7 @@ def run_c11(tier, budget, rnd) -> StreamResult:
             script.add(f"srch gt drop {gt}", "ok")
 
     # ---- sampled search and best-states on a replayable generator
-    best_shapes = [(3, 3, 2), (3, 4, 1), (4, 2, 2), (4, 2, 4), (3, 2, 3)] if quick else \
+    best_shapes = [(3, 3, 2), (4, 2, 2), (3, 4, 1), (4, 2, 4), (4, 2, 2), (4, 3, 2), (3, 2, 3), (4, 2, 3)] if quick else \
         [(3, 3, 1), (3, 3, 2), (3, 4, 2), (3, 5, 3), (4, 1, 2), (4, 2, 2), (4, 2, 4), (4, 3, 2), (4, 3, 3), (3, 0, 2)]
     for bi, (n, steps, reps) in enumerate(best_shapes * (1 if quick else 3)):
         if not budget.ok():
